@@ -81,9 +81,20 @@ def bushy(R, depth, width):
     return sub(depth, True)
 
 
+def aliased(R, depth):
+    """Acyclic data in which one container object is referenced from several places (a DAG, nesting exactly depth)."""
+    shared = chain(R, max(1, depth - 1), R.choice([1, "empty", None]), R.choice(["l", "d", "ld"]))
+    if depth == 1:
+        return [1, 2], "aliased"
+    top = R.choice([lambda: {"a": shared, "b": shared}, lambda: [shared, shared, 1], lambda: {"a": shared, "b": [1], "c": shared}, lambda: [shared, 0, shared, shared]])()
+    return top, "aliased"
+
+
 def acyclic_shape(R, depth):
     if depth <= 7 and R.random() < 0.35:
         return bushy(R, depth, R.choice([2, 3, 6])), "bushy"
+    if R.random() < 0.12:
+        return aliased(R, depth)
     kinds = R.choice(["l", "d", "ld", "dl", "lld", "ddl"])
     bottom = R.choice([1, None, "x", "empty", "empty", True])
     core = chain(R, depth, bottom, kinds)
@@ -153,10 +164,15 @@ QUERIES = ["$..*", "$..[*]", "$..a", "$..[0]", "$..[?@]", "$..['a',0]"]
 
 def run_case(rec, env, det_ref, text, doc, limit, mode, cyclic, containers, branching, N, script_seed, meta):
     budget = 200 * limit * max(1, containers)
-    o = mon.observe(env.compile, text)
-    if o[0] != "ok":
-        return
-    q = o[1]
+    # compiled queries are kept and re-used across cases of the same environment: a traversal that was cut short by an
+    # error (or abandoned) must not influence the next application
+    cache = env.__dict__.setdefault("_vf_compiled", {})
+    if text not in cache:
+        o = mon.observe(env.compile, text)
+        if o[0] != "ok":
+            return
+        cache[text] = o[1]
+    q = cache[text]
     count = 0
     out = []
     outcome = None
@@ -200,11 +216,15 @@ def run_case(rec, env, det_ref, text, doc, limit, mode, cyclic, containers, bran
         rec.violation("data-within-limit-refused:" + str(outcome[1] or outcome[0]), wit)
         return "bad"
     want = det_ref
+    if count != len(want):
+        rec.violation("result-size-differs-within-limit", dict(wit, expected_nodes=len(want)))
+        return "bad"
+    want = want[:5000]   # only the first 5000 nodes are kept for comparison
     if mode == "deterministic":
         if out != want:
             rec.violation("result-differs-within-limit", dict(wit, expected_nodes=len(want)))
             return "bad"
-    elif sorted(out) != sorted(want):
+    elif count <= 5000 and sorted(out) != sorted(want):
         rec.violation("result-not-a-permutation-within-limit", dict(wit, expected_nodes=len(want)))
         return "bad"
     return "completed"
